@@ -104,9 +104,9 @@ func runMultiOnce(c Case) (res obs.Result, raced bool) {
 	maxRedir := gen.Pick(r, []int{0, 0, 0, 1, 2})
 	disableRetry := r.Chance(1, 5)
 	delays := genDelays(r)
-	var dlog []int
+	dlog := &ro.ConsultLog{}
 	cli, err := rueidis.NewClient(rueidis.ClientOption{InitAddress: []string{l.prims[0]}, DialCtxFn: l.cl.Dial, DisableCache: true, PipelineMultiplex: -1,
-		DisableRetry: disableRetry, RetryDelay: delayFn(delays, &dlog), ClusterOption: rueidis.ClusterOption{MaxMovedRedirections: maxRedir}})
+		DisableRetry: disableRetry, RetryDelay: delayFn(delays, dlog, l.cl), ClusterOption: rueidis.ClusterOption{MaxMovedRedirections: maxRedir}})
 	if err != nil {
 		res.Oracle, res.Site, res.Class = "harness: NewClient failed: "+err.Error(), "harness", "setup"
 		return
@@ -197,6 +197,7 @@ func runMultiOnce(c Case) (res obs.Result, raced bool) {
 	}
 	arrivals := l.cl.Arrivals()
 	perCmd := make([][]ro.Reply, len(cmds))
+	perSeq := make([][]int64, len(cmds))
 	type cn struct {
 		i    int
 		node string
@@ -211,6 +212,7 @@ func runMultiOnce(c Case) (res obs.Result, raced bool) {
 			continue
 		}
 		perCmd[i] = append(perCmd[i], replyOfArrival(a))
+		perSeq[i] = append(perSeq[i], a.Seq)
 		if _, ok := perCN[cn{i, a.Node}]; !ok {
 			cnOrder = append(cnOrder, cn{i, a.Node})
 		}
@@ -269,7 +271,7 @@ func runMultiOnce(c Case) (res obs.Result, raced bool) {
 	for i := range finals {
 		fin[i] = finals[i].String()
 	}
-	res.Obs = map[string]any{"cmds": desc, "results": fin, "panic": panicked, "sends": perNode, "max": maxRedir, "retry": !disableRetry, "delays": delays, "delaycalls": dlog}
+	res.Obs = map[string]any{"cmds": desc, "results": fin, "panic": panicked, "sends": perNode, "max": maxRedir, "retry": !disableRetry, "delays": delays, "delaycalls": dlog.Calls()}
 	res.Site = "cluster.go:DoMulti"
 	fail := func(class, f string, a ...any) {
 		if res.Oracle == "" {
@@ -315,8 +317,26 @@ func runMultiOnce(c Case) (res obs.Result, raced bool) {
 			}
 		}
 		if !redirected {
+			// the block of a transaction travels whole: its members are judged together
+			var block []string
+			lo, hi := -1, -1
 			for i, b := range cmds {
-				retryOracleBatch(&res, b, !disableRetry, delays, perCmd[i])
+				if b.kind == "multi" {
+					lo = i
+				}
+				if b.kind == "exec" {
+					hi = i
+				}
+			}
+			if lo >= 0 && hi > lo {
+				for i := lo; i <= hi; i++ {
+					block = append(block, strings.Join(cmds[i].argv, " "))
+				}
+			}
+			cons := dlog.Calls()
+			for i, b := range cmds {
+				inBlock := lo >= 0 && i >= lo && i <= hi
+				retryOracleBatch(&res, b, !disableRetry, cons, perCmd[i], perSeq[i], inBlock, block)
 			}
 		}
 	}
@@ -374,9 +394,11 @@ func checkTx(res *obs.Result, cmds []bcmd, arrivals []fc.Arrival, byArgv map[str
 	}
 }
 
-// retryOracleBatch: a member re-sent after a retry-class reply (no redirect) must be retryable, with
-// retries enabled and a non-negative delay for the attempt in which the failure was seen.
-func retryOracleBatch(res *obs.Result, b bcmd, retryOn bool, delays []int64, ticks []ro.Reply) {
+// retryOracleBatch: a member re-sent after a retry-class reply (no redirect) must be retryable, with retries
+// enabled, and RetryDelay must have been consulted for it between the two sends and have answered >= 0.
+// A member of a MULTI…EXEC block is re-sent with its block: there the consultation of any member of the
+// block counts (the client consults only retryable members).
+func retryOracleBatch(res *obs.Result, b bcmd, retryOn bool, cons []ro.Consult, ticks []ro.Reply, seqs []int64, inBlock bool, block []string) {
 	for i := 0; i+1 < len(ticks); i++ {
 		k := ticks[i].Kind
 		if k != "tryagain" && k != "clusterdown" && k != "loading" {
@@ -384,23 +406,22 @@ func retryOracleBatch(res *obs.Result, b bcmd, retryOn bool, delays []int64, tic
 		}
 		why := ""
 		switch {
-		case !b.retryable:
-			why = "the command is neither read-only nor retryable"
 		case !retryOn:
 			why = "DisableRetry is set"
-		}
-		if why == "" {
-			// the delay function is consulted with the batch's attempt counter; a negative answer for every
-			// attempt means no retry can be justified at all
-			neg := true
-			for _, d := range delays {
-				if d >= 0 {
-					neg = false
+		case inBlock:
+			ok := false
+			for _, m := range block {
+				if c, found := ro.LastConsult(cons, seqs[i], seqs[i+1], m); found && c.Delay >= 0 {
+					ok = true
 				}
 			}
-			if neg {
-				why = "RetryDelay is negative for every attempt"
+			if !ok {
+				why = "no member of its MULTI…EXEC block got a non-negative RetryDelay between the two sends"
 			}
+		case !b.retryable:
+			why = "the command is neither read-only nor retryable"
+		default:
+			why = ro.RetryJustified(cons, seqs[i], seqs[i+1], strings.Join(b.argv, " "))
 		}
 		if why != "" && res.Oracle == "" {
 			res.Oracle, res.Site, res.Class = fmt.Sprintf("batch member %q re-sent after %s: %s", strings.Join(b.argv, " "), ticks[i], why), "cluster.go:doresultfn", "batch-retry-policy"
